@@ -25,3 +25,4 @@ extern uint8_t  *H_BUF;           /* caller buffer */
 extern uint32_t  H_BUFSZ;         /* its size */
 extern uint32_t  H_SIZE;          /* size/len argument */
 extern uint8_t   H_BK0, H_DK0;    /* snapshots old(H_BUF[G_K]) / old(storage[G_K]) for explicit-form frames */
+extern uint8_t  *V_SDOBUF_P;      /* == V_SDOBUF (the SDO transfer buffer object) */
